@@ -14,7 +14,8 @@ RULE = ('cases: a C01 string (molecule model x partition x rendering) plus 1-3 i
         'Oracle: final fine graph isomorphic to the model and to the two-level resolution; after each step the '
         'coarse graph IS the previous fine graph (same object); C02 mapping and C03 bonding invariants (dedicated '
         'pairs: exactly edge-order bonds) after every step; resolve() k times, resolve_iter() and resolve_all() on '
-        'three fresh resolvers give equal canonical dumps. non-trivial = >=3 levels in total with >=2 groups at '
+        'three fresh resolvers give equal canonical dumps, and so does continuing from the first fine graph through '
+        'from_graph with the remaining blocks. non-trivial = >=3 levels in total with >=2 groups at '
         'some intermediate level; distinct = string')
 ASSUMPTIONS = ['intermediate levels never contain order-0 edges (no cut bond has order 0)']
 
@@ -60,10 +61,21 @@ def gen_blocks(R, tier):
     R.shuffle(frs)
     R.shuffle(blocks)
     top = ''.join('[#B%d]' % b for b in range(nb))
-    layered = '{%s}.{%s}.{%s}' % (top, ','.join(blocks), ','.join(frs))
-    two = '{%s}.{%s}' % (''.join(flat), ','.join(frs))
-    return dict(input=layered, two_level=two, last_all_atom=True, legacy=True, kind='blocks', dedicated=True, nlevels=2,
-                nfr=nb, features=sorted({'multiplier_inside_intermediate_fragment', 'blocks:%d' % nb, 'multi_group_level'}))
+    legacy = R.chance(0.5)
+    feats = {'multiplier_inside_intermediate_fragment', 'blocks:%d' % nb, 'multi_group_level'}
+    fr_block, bl_block = ','.join(frs), ','.join(blocks)
+    if not legacy:
+        # label-insensitive convention: only the symbol kind counts, so every label may be anything
+        import re
+
+        def rl(t):
+            return re.sub(r'\[([$<>])(\w*)\]', lambda mo: '[%s%s]' % (mo.group(1), R.choice(['', 'p', 'q7', 'Zz', mo.group(2)])), t)
+        fr_block, bl_block = rl(fr_block), rl(bl_block)
+        feats.add('label_insensitive_relabelled')
+    layered = '{%s}.{%s}.{%s}' % (top, bl_block, fr_block)
+    two = '{%s}.{%s}' % (''.join(flat), fr_block)
+    return dict(input=layered, two_level=two, last_all_atom=True, legacy=legacy, kind='blocks', dedicated=True, nlevels=2,
+                nfr=nb, features=sorted(feats))
 
 
 def gen(R, tier):
@@ -95,7 +107,7 @@ def nontrivial(case):
 
 def _resolver(case):
     from cgsmiles import MoleculeResolver
-    return MoleculeResolver.from_string(case['input'], last_all_atom=case['last_all_atom'])
+    return MoleculeResolver.from_string(case['input'], last_all_atom=case['last_all_atom'], legacy=case.get('legacy', True))
 
 
 def oracle(case):
@@ -112,12 +124,12 @@ def oracle(case):
                lambda: "step %d: the returned coarse graph is not the previous step's fine graph" % lv)
         what = 'level %d: ' % lv
         invariants.check_mapping(cg, fine, r.fragment_dicts[lv], all_atom, what)
-        invariants.check_bonds(cg, fine, r.fragment_dicts[lv], True, all_atom, True, what)
+        invariants.check_bonds(cg, fine, r.fragment_dicts[lv], case.get('legacy', True), all_atom, True, what)
         prev_fine = fine
         steps.append(invariants.dump(fine))
     final = prev_fine
     if case['kind'] == 'blocks':
-        _, fine2 = sut(lambda: MoleculeResolver.from_string(case['two_level']).resolve_all())
+        _, fine2 = sut(lambda: MoleculeResolver.from_string(case['two_level'], legacy=case['legacy']).resolve_all())
         try:
             hg, hg2 = molgen.heavy_graph(final), molgen.heavy_graph(fine2)
         except ValueError as e:
@@ -154,3 +166,13 @@ def oracle(case):
     expect(invariants.dump(f3) == steps[-1], 'levels:resolve_all-differs', 'resolve_all() differs from repeated resolve()')
     expect(invariants.dump(cg3) == invariants.dump(cg), 'levels:resolve_all-coarse-differs',
            'coarse graph of resolve_all() differs from the one of the last resolve()')
+    # a fourth way: the first step from the string, the remaining levels through from_graph on its fine graph
+    if r.resolutions >= 2:
+        import re
+        blocks = re.findall(r"\{[^\}]+\}", case['input'])
+        r4 = sut(_resolver, case)
+        _, fine1 = sut(r4.resolve)
+        r5 = sut(lambda: MoleculeResolver.from_graph('.'.join(blocks[2:]), fine1, last_all_atom=aa, legacy=case.get('legacy', True)))
+        _, f5 = sut(r5.resolve_all)
+        expect(invariants.dump(f5) == steps[-1], 'levels:from_graph-continuation-differs',
+               'continuing from the first fine graph through from_graph differs from repeated resolve()')
